@@ -384,6 +384,77 @@ def ch_loops(ctx) -> Channel:
     return ch
 
 
+# ====================================================================== vod_gate
+
+def ch_vod_gate(ctx) -> Channel:
+    """VOD media requests at the ends of the stored media vs the first/last gate of the model"""
+    import appboot
+    import c16_http
+    ch = Channel("vod_gate", rule=(
+        "correspondence: GET /dash/vod/<stream>/<file>/<number>.<ext> and .../time/<t>.<ext> for every indexed "
+        "media file of every stream, with numbers and times from a boundary pool derived from the stream "
+        "(0, start_number-1, first, first+1, last-1, last, last+1, last+2, 2*last; time 0, the starts of the "
+        "first and last two segments +-1 tick, the media duration +-1, n*segment_duration and the quarter-"
+        "segment rounding points around it, one segment past the end) vs the model of the first/last gate and "
+        "index check (c16vod): ok <-> 200, refused <-> 404; oracle: never >= 500, and a number outside "
+        "[start_number, start_number + n - 1] is answered 404; non-trivial = a request within two segments of "
+        "either end; distinct by url"))
+    app = c16_http.world()
+    P = c16_http.pools(app)
+    ext = {"video": "m4v", "audio": "m4a", "text": "m4s"}
+    cases, lines = [], []
+    for name, rep in sorted(P["reps"].items()):
+        with app.ctx() as m:
+            s = m.Stream.get(directory=rep["stream"])
+            mf = m.MediaFile.get(name=name)
+            usable = s.timing_reference is not None and mf is not None
+            enc = bool(mf.encrypted) if mf is not None else False
+        if not usable:
+            continue
+        e = ext.get(rep["content_type"], "mp4")
+        q = "?drm=all" if enc else ""
+        base = f"/dash/vod/{rep['stream']}/{name}"
+        nums = c16_http.number_boundaries(rep)
+        times = c16_http.time_boundaries(rep)
+        if not ctx.thorough and len(P["reps"]) > 12:
+            times = times[::2] + times[-3:]
+        for num in nums:
+            cases.append((f"{base}/{num}.{e}{q}", rep, ("n", num)))
+            lines.append(f"c16vod {rep['sd']} {rep['sn']} {rep['n']} {num}")
+        for t in times:
+            cases.append((f"{base}/time/{t}.{e}{q}", rep, ("t", t)))
+            lines.append(f"c16vod {rep['sd']} {rep['sn']} {rep['n']} t{t}")
+    try:
+        model = common.run_driver(lines)
+    except Exception as e:
+        ch.errors.append(f"driver: {e}")
+        model = ["driver-error"] * len(lines)
+    client = app.client()
+    with appboot.Clock(c16_http.NOW):
+        for (url, rep, addr), mo in zip(cases, model):
+            ch.evaluations += 1
+            res = c16_http.run(client, "GET", url)
+            num = addr[1] if addr[0] == "n" else (addr[1] + rep["sd"] // 4) // rep["sd"] + rep["sn"]
+            first, last = rep["sn"], rep["sn"] + rep["n"] - 1
+            ch.count(f"{'number' if addr[0] == 'n' else 'time'}:{res.status}")
+            if first - 2 <= num <= first + 2 or last - 2 <= num <= last + 2:
+                ch.nontrivial.add(url)
+            why = c16_http.violates(res, [])
+            if not why and not (first <= num <= last) and res.status != 404:
+                why = f"segment number {num} is outside [{first}, {last}] but the answer is {res.status}, not 404"
+            if why:
+                path, _, qs = url.partition("?")
+                ch.oracle_failures.append(http_failure("vod_gate", "GET", path, [["drm", "all"]] if qs else [], "anon",
+                                                       None, res, why))
+            if mo == "driver-error":
+                continue
+            want = 200 if mo.startswith("ok") else 404
+            if res.status != want:
+                ch.disagreements.append({"url": url, "model": mo, "impl": res.status})
+            ch.sample({"url": url, "model": mo, "status": res.status}, limit=3)
+    return ch
+
+
 # ====================================================================== ntp_time
 
 def ch_ntp(ctx) -> Channel:
@@ -644,6 +715,13 @@ class HttpFuzz:
         "/dash/vod/bbb/bbb_v7/1.m4v?events=scte35&scte35__program_id=70000&scte35__interval=10",
         "/stream/1?verr=404%3D2", "/stream/1?depth=x", "/stream/1?events=scte35&scte35__program_id=-1&scte35__inband=0&scte35__count=2",
         "/time/head?drift=9007199254740993",
+        "/dash/live/bbb/hand_made.mpd?verr=503%3D2023-05-01T12:00:00%2B99:00",
+        "/dash/live/bbb/hand_made.mpd?merr=503%3D2023-05-01T12:00:00%2B99:00",
+        "/dash/vod/bbb/hand_made.mpd?drm=playready&playready__la_url=" + "%7Bcfgs%7D" * 680,
+        "/dash/vod/bbb/bbb_v7_enc/init.m4v?drm=playready&playready_la_url=" + "%7Bcfgs%7D" * 680,
+        "/dash/live/bbb/bbb_v7/15180273305.m4v?start=0100-01-01T00:00:00Z",
+        "/dash/live/bbb/bbb_v7/time/14573062371840.m4v?start=0100-01-01T00:00:00Z",
+        "/dash/vod/bbb/bbb_v7/11.m4v", "/dash/vod/bbb/bbb_v7/time/9600.m4v",
         # work amplification: the response grows with a request value
         "/dash/live/bbb/hand_made.mpd?timeline=1&start=epoch&depth=2147483648",
         "/dash/live/bbb/hand_made.mpd?timeline=1&start=epoch&depth=5000000",
@@ -755,6 +833,60 @@ class HttpFuzz:
                 for t in (targets[:3] if url else self.rng.sample(targets, 2 if self.ctx.thorough else 1)):
                     self.one("GET", t, [["drm", "all"], [name, v]], "anon", None, endpoint="long-strings")
 
+    def boundary_sweep(self):
+        """numeric path components at the boundaries of what the stream has: live media (number and
+        $Time$) around the live edge and the far end of the time shift buffer for recent, 1970, and very
+        old starts; multi-period media around the start and end of every period"""
+        import datetime
+        H = self.H
+        ext = {"video": "m4v", "audio": "m4a", "text": "m4s"}
+        now = datetime.datetime(2024, 3, 5, 10, 20, 30)
+        starts = ["2024-03-05T10:00:00Z", "2024-03-05T10:20:00Z", "1970-01-01T00:00:00Z", "1479-06-01T00:00:00Z",
+                  "0100-01-01T00:00:00Z", "0001-01-01T00:00:00Z"]
+        names = [n for n in ("bbb_v7", "bbb_a1", "bbb_v7_enc", "syn1_v1", "syn1_a1", "tears_v1", "c16na_v1")
+                 if n in self.P["reps"]]
+        if not self.ctx.thorough:
+            names, starts = names[:4], [starts[0], starts[2], starts[4], starts[5]]
+        for name in names:
+            rep = self.P["reps"][name]
+            e = ext.get(rep["content_type"], "mp4")
+            base = f"/dash/live/{rep['stream']}/{name}"
+            for start in starts:
+                y, mo, d, hh, mm, ss = (int(x) for x in (start[0:4], start[5:7], start[8:10], start[11:13],
+                                                         start[14:16], start[17:19]))
+                el = now - datetime.datetime(y, mo, d, hh, mm, ss)
+                el_s = el.days * 86400 + el.seconds
+                edge = rep["sn"] + el_s * rep["ts"] // rep["sd"]
+                far = edge - 60 * rep["ts"] // rep["sd"]
+                q = [["start", start], ["depth", "60"]] + ([["drm", "all"]] if name.endswith("_enc") else [])
+                for num in sorted({edge + k for k in (-3, -2, -1, 0, 1, 2)} | {far + k for k in (-4, -3, -2, -1, 0, 1)}):
+                    if num < 0:
+                        continue
+                    self.one("GET", f"{base}/{num}.{e}", q, "anon", None, endpoint="boundary-live")
+                    t = (num - rep["sn"]) * rep["sd"]
+                    for tt in (t - 1, t, t + 1):
+                        if tt >= 0:
+                            self.one("GET", f"{base}/time/{tt}.{e}", q, "anon", None, endpoint="boundary-live")
+        for mps, ppks in sorted(self.P["ppks"].items()):
+            for ppk in ppks:
+                for name in (self.P["pfiles"].get(ppk) or [])[:(3 if self.ctx.thorough else 1)]:
+                    rep = self.P["reps"].get(name)
+                    if rep is None:
+                        continue
+                    e = ext.get(rep["content_type"], "mp4")
+                    sn, sd = rep["sn"], rep["sd"]
+                    for mode in ("vod", "live"):
+                        base = f"/mps/{mode}/{mps}/{ppk}/{name}"
+                        q = [["drm", "all"]] if name.endswith("_enc") else []
+                        for num in sorted({0, sn - 1, sn, sn + 1, sn + 4, sn + 5, sn + 6, sn + 7, sn + rep["n"] - 1,
+                                           sn + rep["n"], sn + rep["n"] + 1}):
+                            if num >= 0:
+                                self.one("GET", f"{base}/{num}.{e}", q, "anon", None, endpoint="boundary-mps")
+                        for k in (0, 1, 4, 5, 6, rep["n"] - 1, rep["n"], rep["n"] + 1):
+                            for tt in (k * sd - 1, k * sd, k * sd + 1):
+                                if tt >= 0:
+                                    self.one("GET", f"{base}/time/{tt}.{e}", q, "anon", None, endpoint="boundary-mps")
+
     def stored_defaults(self, n):
         """stream defaults as an input dimension: option vectors saved through POST /stream/<spk>/defaults
         (media user, valid CSRF token - the one state-changing request this channel sends on purpose; the
@@ -831,7 +963,10 @@ def ch_fuzz_http(ctx) -> Channel:
         "without periods / without timing reference / of zero duration) x Range/Host/Cookie headers; the "
         "every string-typed option and the raw <drm>_la_url parameters with values of 1 KB ... 64 KB +- 8 ... 1 MB "
         "characters and with format-template look-alikes on manifest / encrypted init / media / player routes; "
-        "option vectors saved as *stream defaults* through the defaults form (then the stream's manifests, segments "
+        "segment numbers and times on the live and multi-period media routes from boundary pools derived from the "
+        "stream and the clock (live edge and far end of the time shift buffer +-3 for recent, 1970 and very old "
+        "starts; start and end of every period +-1 tick; the random URLs draw 70 % of their numbers and times "
+        "from the stream's own first-1 .. last+2 pool); option vectors saved as *stream defaults* through the defaults form (then the stream's manifests, segments "
         "and pages); clock-dependent routes at boundary instants of the controlled clock (1970, NTP era end 2036, 2^31 and "
         "2^32 Unix seconds, year 9999); plus "
         "POST/PUT/DELETE rules with junk bodies and no valid CSRF token; oracle: status < 500 or a code the "
@@ -846,10 +981,11 @@ def ch_fuzz_http(ctx) -> Channel:
         fz.clock_sweep(clock, ctx.scale(4, 150))
         fz.login()
         fz.regressions()
+        fz.boundary_sweep()
         fz.long_strings()
         fz.sweep()
         fz.every_option()
-        fz.random_gets(ctx.scale(1500, 32000))
+        fz.random_gets(ctx.scale(1100, 32000))
         fz.stored_defaults(ctx.scale(20, 300))
         before = c16_http.pools(fz.app)
         fz.mutating(ctx.scale(250, 4000))
@@ -990,6 +1126,7 @@ def channels(ctx):
     yield ch_inject(ctx)
     yield ch_loops(ctx)
     yield ch_ntp(ctx)
+    yield ch_vod_gate(ctx)
     yield ch_fuzz_mp4(ctx)
     yield ch_fuzz_http(ctx)          # last: its POST/PUT/DELETE part is the only one that may change state
 
@@ -1132,7 +1269,7 @@ def search(ctx, disagreements):
     c2 = types.SimpleNamespace(tier="thorough", thorough=True, seed=ctx.seed + 7919,
                                rng=lambda name: common.rng_for(ctx.seed + 7919, name),
                                scale=lambda q, t: max(q, t // 6))
-    for fn in (ch_opt_errors, ch_inject, ch_loops, ch_ntp, ch_fuzz_http, ch_fuzz_mp4):
+    for fn in (ch_opt_errors, ch_inject, ch_loops, ch_ntp, ch_vod_gate, ch_fuzz_http, ch_fuzz_mp4):
         ch = fn(c2)
         if ch.oracle_failures:
             return ch.oracle_failures[0]
